@@ -13,8 +13,10 @@ CONSTANTS
   Kinds = {"alterDatabase", "createIndex", "alterIndex", "loadPartitions"}
   WithFail = FALSE
   WithInflight = TRUE
+  WithSwap = TRUE
   WithRestart = TRUE
   AlterDbChecked = TRUE
   AlterIdxRecheck = TRUE
   DropGuarded = TRUE
+  CreateFromDrop = TRUE
   TabT = {0}
